@@ -13,6 +13,7 @@ import (
 	"strings"
 	"testing"
 	"testing/synctest"
+	"time"
 
 	"verif/kit"
 
@@ -371,7 +372,7 @@ func (tw *tworld) sendOutbound(o outbound, sport uint16) (emitted int, panicked 
 func TestC06(t *testing.T) {
 	env := kit.GetEnv()
 	rep := kit.NewReport("C06", env)
-	rep.Rule = "configurations: {tcp,udp,http,https,icmp6,ping6} x {explicit port 8080, default port} x {public, friends, for=[IP], for=[friend name], friends+for} x friends in {none,{F1},{F1,F2}} x isolate {off,on} (thorough: all ordered pairs of services incl. colliding keys), each through the real Store parser; per accepted configuration on one real router with four real keyed neighbours: inbound packets = sender {friend, friend2, listed, stranger} x protocol {0,1,6,17,58,255} x dst port {0,80,443,8080,81} x inner src {sender, other} x inner dst {self, other, API address} x frame {sealed by sender, sealed by another router, garbage}; outbound = src {own, foreign} x dst {friend, stranger, listed, multicast, non-Mycoria, unrouted Mycoria} x protocol {6,17,58} ; plus two-step sequences over mirrored 5-tuples (verdict cache) ; each packet uses a fresh source port so verdicts are independent unless a sequence says otherwise; non-trivial = packets whose reference verdict is 'deliver' or that deviate in exactly one condition from a deliverable packet; distinct = distinct (configuration, packet)"
+	rep.Rule = "configurations: {tcp,udp,http,https,icmp6,ping6} x {explicit port 8080, default port} x {public, friends, for=[IP], for=[friend name], friends+for} x friends in {none,{F1},{F1,F2}} x isolate {off,on} (thorough: all ordered pairs of services incl. colliding keys), each through the real Store parser; per accepted configuration on one real router with four real keyed neighbours: inbound packets = sender {friend, friend2, listed, stranger} x protocol {0,1,6,17,58,255} x dst port {0,80,443,8080,81} x inner src {sender, other} x inner dst {self, other, API address} x frame {sealed by sender, sealed by another router, garbage}; outbound = src {own, foreign} x dst {friend, stranger, listed, multicast, non-Mycoria, unrouted Mycoria} x protocol {6,17,58} ; plus multi-step sequences over mirrored 5-tuples (verdict cache), including expiry of the cached verdict through the real cleaner after 11 minutes of virtual time; each packet uses a fresh source port so verdicts are independent unless a sequence says otherwise; non-trivial = packets whose reference verdict is 'deliver' or that deviate in exactly one condition from a deliverable packet; distinct = distinct (configuration, packet)"
 	rep.Assumptions = []string{
 		"the verdict cache is by design: a packet mirroring the 5-tuple of a previously allowed flow in the other direction shares that flow's verdict; single-packet cases use fresh tuples, the cache is exercised in dedicated two-step sequences and judged with the same memo in the reference",
 		"'enters the mesh' = a frame emitted by R on any virtual link while the local packet is handled (traffic frame or hello ping)",
@@ -535,6 +536,25 @@ func TestC06(t *testing.T) {
 					nontrivial++
 					if g3 != w3 || (n3 > 0) != may3 {
 						rep.Violate("sequence/inbound-then-outbound", fmt.Sprintf("service packet then reply: delivered=%v/%v emitted=%d/%v peer=%s proto=%d; %s", g3, w3, n3, may3, who(peer), proto, c), c.String())
+					}
+					// (e) verdict expiry: after the connection-state cleaner dropped an old flow
+					// (regular flows: 10 min idle), a packet of that flow is judged afresh by the policy.
+					sport += 2
+					in5 := inbound{peer, proto, 8080, peer, iR, 0}
+					w5 := tw.refInbound(in5, sport)
+					g5, _, _ := tw.sendInbound(in5, sport)
+					time.Sleep(11 * time.Minute)
+					_ = tw.r.Router().VerifClean()
+					tw.memo = map[string]bool{} // the reference forgets with the cleaner
+					w5b := tw.refInbound(in5, sport)
+					g5b, _, _ := tw.sendInbound(in5, sport)
+					o5 := outbound{iR, peer, proto, sport}
+					may5 := tw.refOutboundMay(o5, 8080)
+					n5, _ := tw.sendOutbound(o5, 8080)
+					evals++
+					nontrivial++
+					if g5 != w5 || g5b != w5b || (n5 > 0) != may5 {
+						rep.Violate("sequence/after-state-expiry", fmt.Sprintf("flow judged %v/%v before and %v/%v after the verdict expired, reply emitted=%d/%v: peer=%s proto=%d; %s", g5, w5, g5b, w5b, n5, may5, who(peer), proto, c), c.String())
 					}
 					// (d) spoofed inner source never gets through, whatever came before.
 					sport += 2
